@@ -448,6 +448,7 @@ type Input struct {
 	Bind  *BindInput  `json:"bind,omitempty"`
 	Chain *ChainInput `json:"chain,omitempty"`
 	Err   *ErrInput   `json:"error,omitempty"`
+	Union *UnionInput `json:"union,omitempty"`
 }
 
 const bindShards = 16
@@ -460,11 +461,14 @@ func shards(tier string) []string {
 	for _, k := range []string{"string", "enum", "bits", "leafref", "decimal64", "union", "identityref"} {
 		out = append(out, "chain/"+k)
 	}
+	for i := 0; i < unionShards; i++ {
+		out = append(out, fmt.Sprintf("union/%d", i))
+	}
 	return append(out, "errors")
 }
 
 func run(c *core.Ctx) {
-	c.Res.Bound = "bind: typedef t at every subset of <= 3 (thorough 4) of 11 scopes x 5 spellings (bare, own prefix, foreign prefix, unknown prefix, prefix of a module without t) x 10 reference sites (all sites in one program when all resolve, one program per site otherwise), 2 load orders; chain: 3-level chains, 2^9 set/omit patterns of units/default/pattern x 4 leaf additions for strings, 2^6 for enum, bits, leafref, decimal64, union, identityref bases; errors: 22 unknown/unresolvable/cyclic references, in a module and in a submodule, processed twice"
+	c.Res.Bound = "bind: typedef t at every subset of <= 3 (thorough 4) of 11 scopes x 5 spellings (bare, own prefix, foreign prefix, unknown prefix, prefix of a module without t) x 10 reference sites (all sites in one program when all resolve, one program per site otherwise), 2 load orders; chain: 3-level chains, 2^9 set/omit patterns of units/default/pattern x 4 leaf additions for strings, 2^6 for enum, bits, leafref, decimal64, union, identityref bases; union: every ordered pair and triple of 26 member types (near-equal enums, ranges, typedefs of the same name in two modules, bits, identityrefs, leafrefs, decimal64s, a nested union) read directly, through a typedef chain, in a leaf-list and through a grouping, 2 load orders; errors: 22 unknown/unresolvable/cyclic references, in a module and in a submodule, processed twice"
 	report := func(caseNo int64, in Input, f *fail) {
 		c.Outcome("FAIL:" + f.fp)
 		c.Fail(caseNo, nil, f.fp, in, f.exp, f.obs)
@@ -570,6 +574,33 @@ func run(c *core.Ctx) {
 				}
 			}
 		}
+	case "union":
+		var shard int
+		fmt.Sscanf(parts[1], "%d", &shard)
+		unionInputs(shard, func(in UnionInput) bool {
+			if c.Expired() {
+				return false
+			}
+			caseNo, run := c.Begin()
+			if c.Skip(caseNo, run, Input{Union: &in}) {
+				return true
+			}
+			c.Exec()
+			c.Validate()
+			c.Edge(int64(len(in.Members)))
+			c.StateN(1)
+			c.NontrivialN(1)
+			if f := checkUnion(in); f != nil {
+				report(caseNo, Input{Union: &in}, f)
+			} else {
+				c.Outcome("union-members-carried")
+				if caseNo%2000 == 5 {
+					b, _ := json.Marshal(Input{Union: &in})
+					c.Sample(string(b))
+				}
+			}
+			return true
+		})
 	case "errors":
 		for _, body := range errorTexts {
 			for _, sub := range []bool{false, true} {
@@ -618,6 +649,9 @@ func replay(tier string, raw json.RawMessage) (bool, string, string) {
 	case in.Chain != nil:
 		f = checkChain(*in.Chain)
 		text = chainText(*in.Chain)
+	case in.Union != nil:
+		f = checkUnion(*in.Union)
+		text = unionText(*in.Union)
 	case in.Err != nil:
 		f = checkErr(*in.Err)
 		text = errFiles(*in.Err)[len(errFiles(*in.Err))-1].Text
@@ -631,7 +665,7 @@ func replay(tier string, raw json.RawMessage) (bool, string, string) {
 func init() {
 	core.Register(&core.Prop{
 		ID: "C09", Variant: "plain", Shards: shards, Run: run, Replay: replay,
-		Rule:        "bind: a typedef named t is declared at every subset of at most three of eleven scopes (top of module a, top of its submodule, container, list inside it, grouping, rpc, its input, its output, notification, top of imported module b, top of b's submodule), each with a different built-in base so the winner is observable; reference leaves at ten sites (module top, container, list, grouping and nested grouping read through uses, rpc input and output, notification, submodule top and a container in it) spelled t, a:t, b:t, with an unknown prefix, and with the prefix of an imported module that has no t; the reference binder (package ir) predicts the base type or an error; chain: three-level typedef chains in which every level independently sets units, default and a pattern, read at a leaf that adds its own pattern/default/units, at a second leaf doing the same with a different pattern, at a plain leaf, a leaf-list and a mandatory leaf: kind, units, default, HasDefault, accumulated patterns in order, DefaultValues(), and for other bases the enum/bit sets, leafref path, fraction-digits and range, union members, identity base; errors: unknown, unresolvable and cyclic references at every kind of site, in a module and in a submodule, processed twice",
+		Rule:        "bind: a typedef named t is declared at every subset of at most three of eleven scopes (top of module a, top of its submodule, container, list inside it, grouping, rpc, its input, its output, notification, top of imported module b, top of b's submodule), each with a different built-in base so the winner is observable; reference leaves at ten sites (module top, container, list, grouping and nested grouping read through uses, rpc input and output, notification, submodule top and a container in it) spelled t, a:t, b:t, with an unknown prefix, and with the prefix of an imported module that has no t; the reference binder (package ir) predicts the base type or an error; chain: three-level typedef chains in which every level independently sets units, default and a pattern, read at a leaf that adds its own pattern/default/units, at a second leaf doing the same with a different pattern, at a plain leaf, a leaf-list and a mandatory leaf: kind, units, default, HasDefault, accumulated patterns in order, DefaultValues(), and for other bases the enum/bit sets, leafref path, fraction-digits and range, union members, identity base; union: every ordered pair and triple of 26 member type statements chosen to be nearly equal (same enum names with another value assignment, ranges differing in one bound, same-named typedefs of two modules, bits in two orders, two identity bases, two leafref paths, two fraction-digits, a nested union) - each member must dump inside the union exactly as the same statement resolves alone in a leaf, every distinct member must be carried in written order (identical members may be merged), directly, through a three-level typedef chain ending in a container scope, in a leaf-list and through a grouping; errors: unknown, unresolvable and cyclic references at every kind of site, in a module and in a submodule, processed twice",
 		Assumptions: []string{"programs declaring t twice in one module-wide name space (module top and its submodule top) are invalid and excluded", "re-listing enum/bit members in a derived type is outside the claim"},
 	})
 }
